@@ -6,7 +6,7 @@ import MesonModel.Eval.Lemmas
 namespace MesonModel.Eval
 
 def Res.st {α} : Res α → St
-  | .ok _ s | .err _ s | .sig _ s => s
+  | .ok _ s | .err _ s | .sig _ s | .done s => s
 
 /-- `m` never changes the binding of `x` (whatever its outcome) -/
 def FrameM {α} (x : Str) (m : EvalM α) : Prop := ∀ s, lookup x (m s).st.vars = lookup x s.vars
@@ -17,6 +17,7 @@ variable {x : Str}
 theorem pure {α} (a : α) : FrameM x (Pure.pure a : EvalM α) := fun _ => rfl
 theorem fail {α} (e : ErrK) : FrameM x (fail e : EvalM α) := fun _ => rfl
 theorem signal {α} (b : Bool) : FrameM x (signal b : EvalM α) := fun _ => rfl
+theorem subdirDone {α} : FrameM x (subdirDone : EvalM α) := fun _ => rfl
 theorem setLine (n : Nat) : FrameM x (setLine n) := fun _ => rfl
 theorem tag (t : Tag) : FrameM x (tag t) := fun _ => rfl
 theorem getSt : FrameM x getSt := fun _ => rfl
@@ -42,6 +43,7 @@ theorem bind {α β} {m : EvalM α} {f : α → EvalM β} (hm : FrameM x m) (hf 
   | ok a s' => simp only []; rw [hf a s']; rw [hms] at h1; exact h1
   | err e s' => rw [hms] at h1; exact h1
   | sig b s' => rw [hms] at h1; exact h1
+  | done s' => rw [hms] at h1; exact h1
 
 theorem setVar {n : Str} (v : Val) (h : n ≠ x) : FrameM x (setVar n v) := by
   intro s; unfold Eval.setVar; split
@@ -91,8 +93,10 @@ theorem frame_forLoop {x : Str} (body : EvalM Unit) (vars : List Str) (hb : Fram
           rw [frame_forLoop body vars hb hv rest _]
           exact h2.trans h1
         · exact h2.trans h1
+      | done s2 => rw [hbd] at h2; exact h2.trans h1
     | err e s1 => rw [hbv] at h1; exact h1
     | sig b s1 => rw [hbv] at h1; exact h1
+    | done s1 => rw [hbv] at h1; exact h1
 
 attribute [irreducible] FrameM
 
@@ -100,6 +104,7 @@ attribute [irreducible] FrameM
 macro "frame_step" : tactic => `(tactic| first
   | assumption
   | exact FrameM.pure _ | exact FrameM.fail _ | exact FrameM.signal _ | exact FrameM.setLine _
+  | exact FrameM.subdirDone
   | exact FrameM.tag _ | exact FrameM.getSt | exact FrameM.incDepth | exact FrameM.decDepth
   | exact FrameM.emit _ | exact FrameM.liftE _ _ | exact FrameM.getVar _
   | (apply FrameM.setVar; assumption) | (apply FrameM.unsetVar; assumption)
@@ -153,22 +158,33 @@ macro "frame_step2" : tactic => `(tactic| first
 macro "frame2" : tactic => `(tactic| repeat (any_goals frame_step2))
 
 /-- every function except `set_variable` / `unset_variable` leaves the variable table alone -/
-theorem frame_applyFunc {x : Str} (ln : Nat) (fn : Str) (pos : List Val) (kw : List (Str × Val))
-    (h1 : fn ≠ cs!"set_variable") (h2 : fn ≠ cs!"unset_variable") : FrameM x (applyFunc ln fn pos kw) := by
-  unfold applyFunc callFunc
+theorem frame_callFunc {x : Str} (fn : Str) (pos : List Val) (kw : List (Str × Val))
+    (h1 : fn ≠ cs!"set_variable") (h2 : fn ≠ cs!"unset_variable") : FrameM x (callFunc fn pos kw) := by
+  unfold callFunc
   frame2
+
+theorem frame_applyFunc {x : Str} (h : Hooks) (hsp : ∀ nm, FrameM x (h.subproject nm))
+    (ln : Nat) (fn : Str) (pos : List Val) (kw : List (Str × Val))
+    (h1 : fn ≠ cs!"set_variable") (h2 : fn ≠ cs!"unset_variable") (h3 : fn ≠ cs!"subdir") :
+    FrameM x (applyFunc h ln fn pos kw) := by
+  have hc := frame_callFunc (x := x) fn pos kw h1 h2
+  unfold applyFunc
+  frame2
+  all_goals exact hsp _
 
 /-! ### which names a tree may (re)bind, syntactically -/
 
 mutual
 /-- `true` if evaluating the tree might change the binding of `x`: an assignment / `+=` / `foreach`
-variable named `x`, or any call of `set_variable` / `unset_variable` (whose name is computed) -/
+variable named `x`, any call of `set_variable` / `unset_variable` (whose name is computed), or a
+`subdir()` call (the file runs in the same variable table) -/
 def mayWrite (x : Str) : Node → Bool
   | .assign _ name v => name == x || mayWrite x v
   | .plusassign _ name v => name == x || mayWrite x v
   | .foreach _ vars items block => vars.contains x || mayWrite x items || mayWriteL x block
   | .call _ fn pos kw _ =>
-    fn == cs!"set_variable" || fn == cs!"unset_variable" || mayWriteL x pos || mayWriteK x kw
+    fn == cs!"set_variable" || fn == cs!"unset_variable" || fn == cs!"subdir" ||
+      mayWriteL x pos || mayWriteK x kw
   | .arr _ pos kw _ => mayWriteL x pos || mayWriteK x kw
   | .dict _ kw => mayWriteK x kw
   | .and_ _ l r => mayWrite x l || mayWrite x r
@@ -199,7 +215,8 @@ termination_by structural l => l
 end
 
 mutual
-theorem frame_eval (x : Str) : ∀ n, mayWrite x n = false → FrameM x (eval n)
+theorem frame_eval (x : Str) (hk : Hooks) (hsp : ∀ nm, FrameM x (hk.subproject nm)) :
+    ∀ n, mayWrite x n = false → FrameM x (eval hk n)
   | .str _ _, _ => by simp only [eval]; frame2
   | .fstr _ _, _ => by simp only [eval]; frame2
   | .bool _ _, _ => by simp only [eval]; frame2
@@ -207,139 +224,203 @@ theorem frame_eval (x : Str) : ∀ n, mayWrite x n = false → FrameM x (eval n)
   | .id _ _, _ => by simp only [eval]; frame2
   | .arr _ pos kw oe, h => by
     simp only [mayWrite, Bool.or_eq_false_iff] at h
-    have h1 := frame_evalList x pos h.1
-    have h2 := frame_evalKw x false kw [] h.2
+    have h1 := frame_evalList x hk hsp pos h.1
+    have h2 := frame_evalKw x hk hsp false kw [] h.2
     have h3 := frame_reduceArgsWith h1 h2 oe
     simp only [eval]; frame2
   | .dict _ kw, h => by
     simp only [mayWrite] at h
-    have h2 := frame_evalKw x true kw [] h
+    have h2 := frame_evalKw x hk hsp true kw [] h
     have h3 := frame_reduceArgsWith (FrameM.pure (x := x) ([] : List (Option Val))) h2 false false
     simp only [eval]; frame2
   | .and_ _ l r, h => by
     simp only [mayWrite, Bool.or_eq_false_iff] at h
-    have h1 := frame_eval x l h.1
-    have h2 := frame_eval x r h.2
+    have h1 := frame_eval x hk hsp l h.1
+    have h2 := frame_eval x hk hsp r h.2
     simp only [eval]; frame2
   | .or_ _ l r, h => by
     simp only [mayWrite, Bool.or_eq_false_iff] at h
-    have h1 := frame_eval x l h.1
-    have h2 := frame_eval x r h.2
+    have h1 := frame_eval x hk hsp l h.1
+    have h2 := frame_eval x hk hsp r h.2
     simp only [eval]; frame2
   | .not_ _ v, h => by
     simp only [mayWrite] at h
-    have h1 := frame_eval x v h
+    have h1 := frame_eval x hk hsp v h
     simp only [eval]; frame2
   | .uminus _ v, h => by
     simp only [mayWrite] at h
-    have h1 := frame_eval x v h
+    have h1 := frame_eval x hk hsp v h
     simp only [eval]; frame2
   | .arith _ _ l r, h => by
     simp only [mayWrite, Bool.or_eq_false_iff] at h
-    have h1 := frame_eval x l h.1
-    have h2 := frame_eval x r h.2
+    have h1 := frame_eval x hk hsp l h.1
+    have h2 := frame_eval x hk hsp r h.2
     simp only [eval]; frame2
   | .cmp _ _ l r, h => by
     simp only [mayWrite, Bool.or_eq_false_iff] at h
-    have h1 := frame_eval x l h.1
-    have h2 := frame_eval x r h.2
+    have h1 := frame_eval x hk hsp l h.1
+    have h2 := frame_eval x hk hsp r h.2
     simp only [eval]; frame2
   | .index _ l r, h => by
     simp only [mayWrite, Bool.or_eq_false_iff] at h
-    have h1 := frame_eval x l h.1
-    have h2 := frame_eval x r h.2
+    have h1 := frame_eval x hk hsp l h.1
+    have h2 := frame_eval x hk hsp r h.2
     simp only [eval]; frame2
   | .tern _ c t f, h => by
     simp only [mayWrite, Bool.or_eq_false_iff] at h
-    have h1 := frame_eval x c h.1.1
-    have h2 := frame_eval x t h.1.2
-    have h3 := frame_eval x f h.2
+    have h1 := frame_eval x hk hsp c h.1.1
+    have h2 := frame_eval x hk hsp t h.1.2
+    have h3 := frame_eval x hk hsp f h.2
     simp only [eval]; frame2
   | .paren _ v, h => by
     simp only [mayWrite] at h
-    have h1 := frame_eval x v h
+    have h1 := frame_eval x hk hsp v h
     simp only [eval]; frame2
   | .assign _ name v, h => by
     simp only [mayWrite, Bool.or_eq_false_iff, beq_eq_false_iff_ne, ne_eq] at h
-    have h1 := frame_eval x v h.2
+    have h1 := frame_eval x hk hsp v h.2
     have h0 : name ≠ x := h.1
     simp only [eval]; frame2
   | .plusassign _ name v, h => by
     simp only [mayWrite, Bool.or_eq_false_iff, beq_eq_false_iff_ne, ne_eq] at h
-    have h1 := frame_eval x v h.2
+    have h1 := frame_eval x hk hsp v h.2
     have h0 : name ≠ x := h.1
     simp only [eval]; frame2
   | .call ln fn pos kw oe, h => by
     simp only [mayWrite, Bool.or_eq_false_iff, beq_eq_false_iff_ne, ne_eq] at h
-    have h1 := frame_evalList x pos h.1.2
-    have h2 := frame_evalKw x false kw [] h.2
+    have h1 := frame_evalList x hk hsp pos h.1.2
+    have h2 := frame_evalKw x hk hsp false kw [] h.2
     have h3 := frame_reduceArgsWith h1 h2 oe
-    have h4 := fun vs kws => frame_applyFunc (x := x) ln fn vs kws h.1.1.1 h.1.1.2
+    have h4 := fun vs kws => frame_applyFunc (x := x) hk hsp ln fn vs kws h.1.1.1.1 h.1.1.1.2 h.1.1.2
     simp only [eval]
     apply FrameM.bind (FrameM.setLine _); intro _
     apply FrameM.bind h3; intro p
     exact h4 _ _
   | .method ln obj name pos kw oe, h => by
     simp only [mayWrite, Bool.or_eq_false_iff] at h
-    have h0 := frame_eval x obj h.1.1
-    have h1 := frame_evalList x pos h.1.2
-    have h2 := frame_evalKw x false kw [] h.2
+    have h0 := frame_eval x hk hsp obj h.1.1
+    have h1 := frame_evalList x hk hsp pos h.1.2
+    have h2 := frame_evalKw x hk hsp false kw [] h.2
     have h3 := frame_reduceArgsWith h1 h2 oe
     simp only [eval]; frame2
   | .ifc _ ifs _ els, h => by
     simp only [mayWrite, Bool.or_eq_false_iff] at h
-    have h1 := frame_evalIfs x ifs h.1
-    have h2 := frame_execBlock x els h.2
+    have h1 := frame_evalIfs x hk hsp ifs h.1
+    have h2 := frame_execBlock x hk hsp els h.2
     simp only [eval]; frame2
   | .foreach _ vars items block, h => by
     simp only [mayWrite, Bool.or_eq_false_iff] at h
-    have h1 := frame_eval x items h.1.2
-    have h2 := frame_execBlock x block h.2
+    have h1 := frame_eval x hk hsp items h.1.2
+    have h2 := frame_execBlock x hk hsp block h.2
     have hv : x ∉ vars := by
       have := h.1.1
       simpa using this
-    have h3 := frame_forLoop (execBlock block) vars h2 hv
+    have h3 := frame_forLoop (execBlock hk block) vars h2 hv
     simp only [eval]; frame2
     all_goals exact h3 _
   | .cont _, _ => by simp only [eval]; frame2
   | .brk _, _ => by simp only [eval]; frame2
   | .unknown _, _ => by simp only [eval]; frame2
 termination_by structural n => n
-theorem frame_evalList (x : Str) : ∀ l, mayWriteL x l = false → FrameM x (evalList l)
+theorem frame_evalList (x : Str) (hk : Hooks) (hsp : ∀ nm, FrameM x (hk.subproject nm)) :
+    ∀ l, mayWriteL x l = false → FrameM x (evalList hk l)
   | [], _ => by simp only [evalList]; frame2
   | n :: r, h => by
     simp only [mayWriteL, Bool.or_eq_false_iff] at h
-    have h1 := frame_eval x n h.1
-    have h2 := frame_evalList x r h.2
+    have h1 := frame_eval x hk hsp n h.1
+    have h2 := frame_evalList x hk hsp r h.2
     simp only [evalList]; frame2
 termination_by structural l => l
-theorem frame_evalKw (x : Str) (dm : Bool) : ∀ l acc, mayWriteK x l = false → FrameM x (evalKw dm l acc)
+theorem frame_evalKw (x : Str) (hk : Hooks) (hsp : ∀ nm, FrameM x (hk.subproject nm)) (dm : Bool) :
+    ∀ l acc, mayWriteK x l = false → FrameM x (evalKw hk dm l acc)
   | [], _, _ => by simp only [evalKw]; frame2
   | (k, v) :: r, acc, h => by
     simp only [mayWriteK, Bool.or_eq_false_iff] at h
-    have h1 := frame_eval x k h.1.1
-    have h2 := frame_eval x v h.1.2
-    have h3 := fun a => frame_evalKw x dm r a h.2
+    have h1 := frame_eval x hk hsp k h.1.1
+    have h2 := frame_eval x hk hsp v h.1.2
+    have h3 := fun a => frame_evalKw x hk hsp dm r a h.2
     simp only [evalKw]; frame2
     all_goals exact h3 _
 termination_by structural l => l
-theorem frame_execBlock (x : Str) : ∀ l, mayWriteL x l = false → FrameM x (execBlock l)
+theorem frame_execBlock (x : Str) (hk : Hooks) (hsp : ∀ nm, FrameM x (hk.subproject nm)) :
+    ∀ l, mayWriteL x l = false → FrameM x (execBlock hk l)
   | [], _ => by simp only [execBlock]; frame2
   | n :: r, h => by
     simp only [mayWriteL, Bool.or_eq_false_iff] at h
-    have h1 := frame_eval x n h.1
-    have h2 := frame_execBlock x r h.2
+    have h1 := frame_eval x hk hsp n h.1
+    have h2 := frame_execBlock x hk hsp r h.2
     simp only [execBlock]; frame2
 termination_by structural l => l
-theorem frame_evalIfs (x : Str) : ∀ l, mayWriteI x l = false → FrameM x (evalIfs l)
+theorem frame_evalIfs (x : Str) (hk : Hooks) (hsp : ∀ nm, FrameM x (hk.subproject nm)) :
+    ∀ l, mayWriteI x l = false → FrameM x (evalIfs hk l)
   | [], _ => by simp only [evalIfs]; frame2
   | (c, b) :: r, h => by
     simp only [mayWriteI, Bool.or_eq_false_iff] at h
-    have h1 := frame_eval x c h.1.1
-    have h2 := frame_execBlock x b h.1.2
-    have h3 := frame_evalIfs x r h.2
+    have h1 := frame_eval x hk hsp c h.1.1
+    have h2 := frame_execBlock x hk hsp b h.1.2
+    have h3 := frame_evalIfs x hk hsp r h.2
     simp only [evalIfs]; frame2
 termination_by structural l => l
 end
+
+/-! ### `subdir()` / `subproject()` -/
+
+theorem enterSubproject_vars (run : List Node → EvalM Unit) (files : Files) (nm : Str) (s : St) :
+    (enterSubproject run files nm s).st.vars = s.vars := by
+  unfold enterSubproject
+  repeat' split
+  all_goals simp [Res.st, afterChild]
+
+/-- forget the variable table of the outcome's state -/
+def Res.forgetVars {α} : Res α → Res α
+  | .ok a s => .ok a { s with vars := [] }
+  | .err e s => .err e { s with vars := [] }
+  | .sig b s => .sig b { s with vars := [] }
+  | .done s => .done { s with vars := [] }
+
+theorem enterSubproject_blind (run : List Node → EvalM Unit) (files : Files) (nm : Str) (s : St)
+    (v' : List (Str × Val)) :
+    (enterSubproject run files nm s).forgetVars = (enterSubproject run files nm { s with vars := v' }).forgetVars := by
+  unfold enterSubproject
+  simp only [childState]
+  repeat' split
+  all_goals simp_all [Res.forgetVars, afterChild]
+
+/-- the preconditions under which `subdir(arg)` enters a file -/
+structure SubdirOk (files : Files) (s : St) (arg : Str) (block : List Node) : Prop where
+  noDots : hasSub ['.', '.'] arg = false
+  notSubprojects : (s.subdir.isEmpty && arg = cs!"subprojects") = false
+  notReserved : (s.subdir.isEmpty && cs!"meson-".isPrefixOf arg) = false
+  nonEmpty : arg.isEmpty = false
+  relative : arg.head? ≠ some '/'
+  plain : plainPath arg = true
+  fresh : s.visited.contains (joinPath s.subdir arg) = false
+  file : fileOf files (joinPath s.subdir arg) = some block
+
+theorem enterSubdir_eq (run : List Node → EvalM Unit) (files : Files) (arg : Str) (block : List Node) (s : St)
+    (h : SubdirOk files s arg block) :
+    enterSubdir run files arg s =
+      (match leaveSubdir s.subdir
+          (run block { s with visited := joinPath s.subdir arg :: s.visited, subdir := joinPath s.subdir arg }) () with
+        | .ok _ s2 => .ok none s2
+        | .err e s2 => .err e s2
+        | .sig b s2 => .sig b s2
+        | .done s2 => .done s2) := by
+  unfold enterSubdir
+  have h1 := h.noDots; have h2 := h.notSubprojects; have h3 := h.notReserved; have h4 := h.nonEmpty
+  have h5 := h.relative; have h6 := h.plain; have h7 := h.fresh; have h8 := h.file
+  simp only [h1, h2, h3, h4, h5, h6, h7, h8, Bool.false_eq_true, ↓reduceIte, Bool.not_true]
+  rfl
+
+theorem frame_enterSubproject {x : Str} (run : List Node → EvalM Unit) (files : Files) (nm : Str) :
+    FrameM x (enterSubproject run files nm) := by
+  unfold FrameM
+  intro s
+  rw [enterSubproject_vars]
+
+/-- the hooks of every source tree leave the caller's variable table alone in `subproject()` -/
+theorem hooksAt_subproject_frame {x : Str} (files : Files) : ∀ n nm, FrameM x ((hooksAt files n).subproject nm)
+  | 0, _ => by unfold hooksAt; exact FrameM.fail _
+  | n + 1, nm => by unfold hooksAt; exact frame_enterSubproject _ files nm
 
 end MesonModel.Eval
